@@ -15,7 +15,12 @@ func main() { Main("core", run) }
 func run(c *Ctx) error {
 	c.Rule = "one case = one history of 12..60 operations on a real Agent (random configuration; local/remote candidates incl. duplicates, peer-reflexive sources, blocked and TCP candidates; Start; ticks; virtual-time advances; answers to the agent's own requests; peer requests incl. nominations/renominations/role conflicts; ~25% deliberately invalid injections: wrong/absent username or integrity, stale generation, wrong source, wrong local candidate, unknown or duplicate transaction, error class, non-Binding method; data in/out; Restart; Close). Non-trivial = the history reached a selected pair or contained at least one deliberately invalid injection; distinct = distinct case lines."
 	if c.Replay != "" {
-		return fmt.Errorf("core: replay of a history is done by re-running its case line; use the cases file")
+		for _, toks := range c.ReplayLines() {
+			if err := replayHistory(c, toks); err != nil {
+				return err
+			}
+		}
+		return nil
 	}
 	n := 400
 	if c.Tier == "thorough" {
@@ -23,19 +28,30 @@ func run(c *Ctx) error {
 	}
 	for i := 0; i < n; i++ {
 		seed := c.Rng.Int63()
-		if err := oneHistory(c, seed); err != nil {
-			return err
+		ok := false
+		for attempt := 0; attempt < 4 && !ok; attempt++ {
+			var err error
+			if ok, err = oneHistory(c, seed); err != nil {
+				return err
+			}
+			if !ok {
+				c.Count("history:rerun_timing_unreliable")
+			}
+		}
+		if !ok {
+			c.Count("history:discarded_timing_unreliable")
 		}
 	}
 	return nil
 }
 
-func oneHistory(c *Ctx, seed int64) error {
+// oneHistory returns false (and emits nothing) when the machine was too slow for the virtual clock to be trusted.
+func oneHistory(c *Ctx, seed int64) (bool, error) {
 	r := rand.New(rand.NewSource(seed))
 	cfg := agenth.RandomConfig(r)
 	sim, err := agenth.NewSim(cfg)
 	if err != nil {
-		return err
+		return false, err
 	}
 	defer sim.Close()
 	g := agenth.NewGen(r, sim)
@@ -62,6 +78,10 @@ func oneHistory(c *Ctx, seed int64) error {
 		c.Count("op:" + tag)
 		tags[tag] = true
 	}
+	if sim.MaxOp > agenth.MaxOpTime {
+		c.Count("slow_op:" + sim.SlowOp)
+		return false, nil
+	}
 	if g.ReachedSelected {
 		c.Count("history:reached_selected")
 	}
@@ -78,5 +98,27 @@ func oneHistory(c *Ctx, seed int64) error {
 	}
 	_ = strings.Join
 	c.Emit(tag, caseT, obsT, g.ReachedSelected || g.Mutated > 0)
+	return true, nil
+}
+
+func replayHistory(c *Ctx, toks []string) error {
+	cfg, ops := agenth.ParseCase(toks)
+	sim, err := agenth.NewSim(cfg)
+	if err != nil {
+		return err
+	}
+	defer sim.Close()
+	caseT := append([]string{}, sim.CfgToks()...)
+	var obsT []string
+	for i, op := range ops {
+		ct, ot := sim.Do(op)
+		caseT = append(caseT, ";")
+		caseT = append(caseT, ct...)
+		if i > 0 {
+			obsT = append(obsT, ";")
+		}
+		obsT = append(obsT, ot...)
+	}
+	c.Emit("replay", caseT, obsT, true)
 	return nil
 }
